@@ -77,118 +77,99 @@ def r18_2_shared_registry_use(chk):
                     and n.value.attr == "physical_file":
                 chk.fail("R18.2", f"other-logical-files-reached:{f.name}", f"{f.name} reaches the other logical files "
                          f"of the storage unit", f"{f.module.relpath}:{n.lineno}")
-    chk.floor("uses of the shared registry in LogicalFile", n_uses, 21)
+    chk.floor("uses of the shared registry in LogicalFile", n_uses, 1)
 
 
 def r18_3_ownership(chk):
+    """Ownership of sets, on inlined value-flow summaries (helpers such as a private _get_or_make_set or a guard method
+    are looked through): what the registration entry points of the per-logical-file registry do, and what each add_*
+    does with the set it takes from the storage-unit-wide registry."""
+    from ..terms import (SELF, A, K, NONE, contains, subterms, is_call, call_name, call_arg, pp, attr_stores,
+                         raise_conditions, same_call)
     ix = chk.ix
     model = Model(ix)
     reg = ix.get_class("EFLRSetsDict")
-    eset = ix.get_class("EFLRSet")
-    # owner field: the EFLRSet field assigned `self` inside the registry class
-    owner_field = None
-    for f in reg.methods.values():
-        for s in stores_in(f):
-            if isinstance(s.value, ast.Name) and s.value.id == "self" and s.kind == "assign" \
-                    and isinstance(s.base, ast.Name) and s.base.id != "self":
-                owner_field = s.attr
-    chk.require(owner_field is not None, "R18.3", "owner-recorded",
-                "registering a set in a logical file's registry does not record the owner: sharing cannot be detected",
-                reg.where)
-    if owner_field is None:
-        return
-    chk.info["owner_field"] = owner_field
-    # functions that raise when the set's owner is another registry
-    guards = []
-    for f in reg.methods.values():
-        g = CFG(f.node)
-        for ifn, (te, fe) in g.branch.items():
-            t = norm(g.stmt[ifn].test)
-            if owner_field in t and "self" in t and any(g.kind[x] == "raise" for x in g.reachable(te, exceptional=False)
-                                                      if x not in g.reachable(fe, exceptional=False)):
-                guards.append((f, g, ifn, fe))
-    chk.require(bool(guards), "R18.3", "ownership-guard-exists",
-                "no function raises when a set already belongs to another logical file", reg.where)
-    guard_funcs = set()
-    for f, g, ifn, fe in guards:
-        chk.consult(f)
-        tst = g.stmt[ifn].test
-        # the raising condition must be exactly "owned, and not by me": no extra conjunct can switch it off
-        conj = tst.values if isinstance(tst, ast.BoolOp) and isinstance(tst.op, ast.And) else [tst]
-        extra = [norm(c) for c in conj if owner_field not in norm(c)]
-        chk.require(not extra, "R18.3", f"guard-unconditional:{f.short}",
-                    f"the ownership test is weakened by an extra condition ({extra}): some foreign-owned sets are shared "
-                    f"silently", f"{f.module.relpath}:{tst.lineno}")
-        ok = g.must_pass_through({fe}, ENTRY, EXIT, exceptional=False)
-        chk.require(ok, "R18.3", f"guard-on-every-path:{f.short}",
-                    f"{f.short} can return normally without having tested the owner of the set (early return): a set of "
-                    f"another logical file is accepted", f.where)
-        guard_funcs.add(f)
-    # registration entry points: the guard (direct or via call) dominates the store, and the owner is set afterwards
     n_entry = 0
+    owner_field = None
     for name in ("try_add_set", "add_set"):
         f = reg.methods.get(name)
         if f is None:
             continue
         n_entry += 1
         chk.consult(f)
-        g = CFG(f.node)
-        sc = Scope(ix, f)
-        gn = g.nodes_where(lambda s: any(isinstance(c, ast.Call) and any(t in guard_funcs for t in
-                                                                          ix.resolve_call(c, sc)[0])
-                                         for c in walk_expr(header_expr(s) or ast.Pass())))
-        if f in guard_funcs:
-            gn |= {ifn for gf, g2, ifn, fe in guards if gf is f}
-        stores = g.nodes_where(lambda s: isinstance(s, ast.Assign) and any(isinstance(t, ast.Subscript)
-                                                                             for t in s.targets))
-        ok = bool(gn) and bool(stores) and all(g.dominated_by(sn, gn) for sn in stores) \
-            and g.must_pass_through(gn, ENTRY, EXIT, exceptional=False)
-        chk.require(ok, "R18.3", f"guard-dominates-registration:{name}",
+        su = chk.terms.inline(f, 3)
+        the_set = ("param", f.param_names[1])
+        # registration = a subscript store of the set into the registry (self[...][...] = set)
+        regs = [(i, e) for i, e in enumerate(su.effects) if e.kind == "store_sub" and e.value == the_set
+                and contains(e.base, SELF)]
+        owners = [(i, e) for i, e in enumerate(su.effects) if e.kind == "store_attr" and e.base == the_set
+                  and e.value == SELF]
+        for _, e in owners:
+            owner_field = e.key
+        chk.require(bool(regs) and bool(owners) and all(any(o.pc == r.pc for _, o in owners) for _, r in regs), "R18.3",
+                    f"owner-set-on-registration:{name}",
+                    f"{name} registers a set without marking it (on the same path) as owned by this logical file's "
+                    f"registry", f.where)
+        if owner_field is None:
+            continue
+        own = A(the_set, owner_field)
+        foreign = [("cmp", "is not", own, NONE), ("cmp", "is not", own, SELF)]
+        guards = [(i, e) for i, e in enumerate(su.effects) if e.kind == "raise" and all(l in e.pc for l in foreign)]
+        chk.require(bool(guards), "R18.3", f"ownership-guard-exists:{name}",
+                    f"{name} does not raise for a set that already belongs to another logical file", f.where)
+        for i, g in guards:
+            extra = [l for l in g.pc if l not in foreign]
+            chk.require(not extra, "R18.3", f"guard-unconditional:{name}",
+                        f"the ownership test is weakened by an extra condition ({[pp(l)[:50] for l in extra]}): some "
+                        f"foreign-owned sets are shared silently", g.where)
+        first_guard = min((i for i, _ in guards), default=None)
+        ok = first_guard is not None and all(first_guard < i for i, _ in regs)
+        # nothing returns normally before the guard was evaluated: every return is conditioned on "not foreign"
+        neg = ("or", (("cmp", "is", own, NONE), ("cmp", "is", own, SELF)))
+        if guards and all(g.func is not f for _, g in guards):
+            # the guard sits in a helper called at statement level: its raise carries no condition of the caller, so
+            # the call is unconditional and nothing returns before it
+            rets_ok = all(not [l for l in g.pc if l not in foreign] and not g.ctx for _, g in guards)
+        else:
+            rets_ok = all(neg in pc or any(l in (("cmp", "is", own, NONE), ("cmp", "is", own, SELF)) for l in pc)
+                          for pc, _, _ in su.returns) and (not su.falls_through or neg in su.fall_pc or any(
+                              l in (("cmp", "is", own, NONE), ("cmp", "is", own, SELF)) for l in su.fall_pc))
+        chk.require(ok and rets_ok, "R18.3", f"guard-dominates-registration:{name}",
                     f"{name} can register (or silently accept) a set without the ownership test", f.where)
-        owner_set = g.nodes_where(lambda s: isinstance(s, ast.Assign) and any(isinstance(t, ast.Attribute)
-                                  and t.attr == owner_field for t in s.targets))
-        ok2 = bool(owner_set) and all(any(g.dominated_by(o_, {sn}) or g.dominated_by(sn, {o_}) for o_ in owner_set)
-                                      for sn in stores)
-        chk.require(ok2, "R18.3", f"owner-set-on-registration:{name}",
-                    f"{name} registers a set without marking it as owned by this logical file", f.where)
     chk.floor("registration entry points", n_entry, 1)
+    chk.require(owner_field is not None, "R18.3", "owner-recorded",
+                "registering a set in a logical file's registry does not record the owner: sharing cannot be detected",
+                reg.where)
+    chk.info["owner_field"] = owner_field
     # sibling agreement over the add_* sites
     ams = model.add_methods()
     chk.floor("add_* methods", len(ams), 21)
+    shared = A(SELF, "physical_file", "_eflr_sets")
+    own_reg = A(SELF, "_eflr_sets")
     for f, ic, ctor in sorted(ams, key=lambda t: t[0].name):
         chk.consult(f)
-        parent_kw = kw(ctor, "parent")
-        pn = norm(parent_kw) if parent_kw is not None else ""
-        g = CFG(f.node)
-        cst = None
-        for n, s in g.stmt.items():
-            h = header_expr(s)
-            if h is not None and any(x is ctor for x in ast.walk(h)):
-                cst = n
-        regs = g.nodes_where(lambda s: any(isinstance(c, ast.Call) and isinstance(c.func, ast.Attribute)
-                                           and c.func.attr in ("try_add_set", "add_set")
-                                           and norm(c.func.value) == "self._eflr_sets"
-                                           for c in walk_expr(header_expr(s) or ast.Pass())))
-        from_shared = "physical_file._eflr_sets.get_or_make_set" in norm(f.node)
-        ok = cst is not None and bool(regs) and g.dominated_by(cst, regs)
-        # the registered object is the one handed to the constructor (same variable or same lookup expression)
-        reg_args = {norm(c.args[0]) for n in regs for c in walk_expr(header_expr(g.stmt[n]))
-                    if isinstance(c, ast.Call) and isinstance(c.func, ast.Attribute)
-                    and c.func.attr in ("try_add_set", "add_set") and c.args}
-        same = pn in reg_args or any(_same_lookup(f, pn, ra) for ra in reg_args)
-        chk.require(ok and same and from_shared or (not from_shared and "self._eflr_sets.get_or_make_set" in norm(f.node)),
-                    "R18.3", f"site:{f.name}",
-                    f"{f.name} hands a set from the shared registry to the item constructor without passing it through "
-                    f"this logical file's (guarded) registration", f.where)
-
-
-def _same_lookup(f, a_src, b_src) -> bool:
-    """parent=<lookup expr> and try_add_set(<var>) where var = the same lookup expression."""
-    defs = {}
-    for n in walk_local(f.node):
-        if isinstance(n, ast.Assign) and len(n.targets) == 1 and isinstance(n.targets[0], ast.Name):
-            defs[n.targets[0].id] = norm(n.value)
-    return defs.get(a_src, a_src) == defs.get(b_src, b_src)
+        su = chk.terms.inline(f, 3, stop=lambda g: g.cls is not None and g.cls.name in ("EFLRSetsDict",) or
+                              g.name == "__init__")
+        ctors = [c for c in su.all_calls() if call_name(c) == ic.name and call_arg(c, kw="parent") is not None]
+        if not ctors:
+            raise AnalysisError(f"{f.short}: item constructor call with parent= not found")
+        parent = call_arg(ctors[0], kw="parent")
+        from_shared = is_call(parent, "get_or_make_set") and parent[1][1] == shared
+        from_own = is_call(parent, "get_or_make_set") and parent[1][1] == own_reg
+        ctor_pc = None
+        for pc, t, _ in su.returns:
+            if contains(t, ctors[0]):
+                ctor_pc = pc
+        for e in su.effects:
+            if ctor_pc is None and any(isinstance(t, tuple) and contains(t, ctors[0]) for t in (e.base, e.key, e.value)):
+                ctor_pc = e.pc
+        ctor_pc = ctor_pc or ()
+        registered = [e for e in su.effects if e.kind == "call" and is_call(e.value, ("try_add_set", "add_set"))
+                      and e.value[1][1] == own_reg and e.value[2] and same_call(chk.terms, su, e.value[2][0], parent)
+                      and set(e.pc) <= set(ctor_pc) and not e.ctx]
+        chk.require((from_shared and bool(registered)) or from_own, "R18.3", f"site:{f.name}",
+                    f"{f.name} hands a set from the shared registry to the item constructor without passing it "
+                    f"(unconditionally) through this logical file's guarded registration", f.where)
 
 
 def r18_4_5_6(chk):
@@ -218,24 +199,53 @@ def r18_4_5_6(chk):
     chk.require("logical_file._make_multi_frame_data(fr" in src.replace(" ", "").replace("(\n", "(") or
                 "_make_multi_frame_data(fr" in src, "R18.4", "one-generator-per-frame",
                 "frame data generators are not created one per frame of each logical file", glr.where)
+    from ..terms import SELF, A, contains, return_alternatives, pp, subterms, is_call
     lf = ix.get_class("LogicalFile")
     for prop, setcls in (("defining_origin", "OriginSet"), ("channels", "ChannelSet"), ("frames", "FrameSet"),
                          ("origins", "OriginSet")):
         p = lf.lookup(prop)
         if p is None:
             raise AnalysisError(f"LogicalFile.{prop} not found")
-        s = norm(p.node)
-        ok = "self._eflr_sets.get_all_items_for_set_type" in s and setcls in s and "physical_file" not in s
-        chk.require(ok, "R18.5", f"own-registry:{prop}", f"LogicalFile.{prop} is not derived from the logical file's "
-                    f"own registry", p.where)
+        chk.consult(p)
+        ps = chk.terms.inline(p, 3)
+        vals = [t for _, t in return_alternatives(ps) if t != ("const", None)]
+        ok = bool(vals) and all(contains(t, A(SELF, "_eflr_sets")) and contains(
+            t, lambda x: x[0] == "global" and x[1].endswith(setcls)) and not contains(
+            t, lambda x: x[0] == "attr" and x[2] == "physical_file") for t in vals)
+        chk.require(ok, "R18.5", f"own-registry:{prop}", f"LogicalFile.{prop} is `{[pp(t)[:60] for t in vals]}`: not "
+                    f"derived from the {setcls} sets of the logical file's own registry", p.where)
     gud = lf.lookup("_get_unique_dataset_name")
+    gs = chk.terms.inline(gud, 3)
     chk.consult(gud)
-    s = norm(gud.node)
-    chk.require("for ch in self.channels" in s, "R18.6", "dataset-names-unique-per-logical-file",
+    every = []
+    for pc, t, _ in gs.returns + gs.raises:
+        every.extend(pc)
+        every.append(t)
+    for e in gs.effects:
+        every.extend(e.pc)
+        every.extend(lp[2] for lp in e.loops() if isinstance(lp[2], tuple))
+
+    def names_of_all_own_channels(x):
+        # <each channel>.dataset_name with the channels taken from the own registry (ChannelSet) of the logical file
+        if x[0] != "attr" or x[2] != "dataset_name":
+            return False
+        return contains(x[1], A(SELF, "_eflr_sets")) and contains(x[1], lambda y: y[0] == "global" and
+                                                                  y[1].endswith("ChannelSet"))
+    from ..terms import alternatives
+    name_reads = [x for t in every for x in subterms(t) if x[0] == "attr" and x[2] == "dataset_name" and x[1][0] == "elem"]
+
+    def own_channels(it):
+        return contains(it, A(SELF, "_eflr_sets")) and contains(it, lambda y: y[0] == "global" and
+                                                                 y[1].endswith("ChannelSet"))
+    all_own = bool(name_reads) and all(own_channels(a) for x in name_reads for _, a in alternatives(x[1][1]))
+    chk.require(all_own and any(contains(t, names_of_all_own_channels) for t in every), "R18.6",
+                "dataset-names-unique-per-logical-file",
                 "data set names are not compared with those of all channels of the logical file: channels of different "
                 "frames / sets can share a data set name and overwrite each other's inline data", gud.where)
-    add = lf.lookup("add_channel")
-    a = norm(add.node)
-    chk.require("self._get_unique_dataset_name(" in a and "self._data_dict[ch.dataset_name] = data" in a, "R18.6",
-                "inline-data-keyed-by-unique-name", "inline channel data are not stored under the unique data set name",
-                add.where)
+    from . import c11
+    n0 = len(chk.obs)
+    c11.r11_4_inline(chk)
+    keep = [o for o in chk.obs[n0:] if "keyed-by-dataset-name" in o.key]
+    for o in keep:
+        o.rule, o.key = "R18.6", "inline-data-keyed-by-unique-name"
+    chk.obs[n0:] = keep
